@@ -71,6 +71,9 @@ def model (toks : List String) : String :=
     match parseRounds secs with
     | some rounds => render (pollRun clock rounds (optNat budget))
     | none => "bad-op"
+  -- `Materialize` reads `args["poll_interval"].Expression.Expression` although the matcher declares a descriptor:
+  -- with a descriptor argument `.Expression` is nil and the dereference panics
+  | [["pollinterval", _]] => "panic"
   | _ => "bad-op"
 
 /-! ## the oracle -/
@@ -129,7 +132,11 @@ def judgeTumble (op : TumbleOp) (status : String) (out : List Msg) : String :=
     if panics then "ok" else
     if status == "panic" then "bad panic" else
     match firstBad c.idx c.len c.off op.src.1 out with
-    | some e => s!"bad {e}"
+    | some e =>
+      -- known finding: `-1 * offset` wraps for offset = MinInt64, the window lands 2^64 ns early
+      if c.off == minI64 && (e == "time-not-before-window_end" || e == "window_start-after-time") then
+        s!"known tumble-offset-minint64 {e}"
+      else s!"bad {e}"
     | none =>
       match statusOk status out.length op.budget (out.length == op.src.1.length)
               (if op.src.2 then "err:source" else "ok") with
@@ -265,6 +272,7 @@ def judge (toks : List String) (out : List String) : String :=
         match parseRounds secs with
         | some rounds => judgePoll rounds (optNat budget) status outMsgs
         | none => "bad unparsable-op"
+      | [["pollinterval", _]] => "ok"     -- a crash, not a stream: outside C21's statement (C07)
       | _ => "bad unknown-op"
 
 end Octo.Drv.C21
